@@ -67,7 +67,7 @@ def concrete(sym, r, name=None):
     if sym == "wx":
         progs = r.sample(["p1", "p2", "p3"], r.randint(0, 3))
         # the program's name is one thing, the file it is copied from another ("p1b": same size and mode as p1, other content)
-        return dict(op="write_exec_d", name=name, programs=[[p, r.choice([p, p, "p1b" if p == "p1" else "p2l" if p == "p2" else p])] for p in progs])
+        return dict(op="write_exec_d", name=name, programs=[[p, r.choice([p, p, "p1b" if p == "p1" else "p2l" if p == "p2" else p])] for p in progs] + ([["gone", "no-such-source"]] if r.random() < 0.08 else []))
     if sym == "wf":
         files = [[r.choice(["data.txt", "bin/tool", "lib/libx.so", "deep/er/file", "env.build.txt"]), hx(b"content-%d" % r.randrange(1000))] for _ in range(r.randint(1, 3))]
         # symbolic links inside the layer (to a file, to a directory, dangling, relative upwards): legal layer content
@@ -285,6 +285,18 @@ def judge_write(step, rep, pre, post, names, src_dir, sh, case):
         return True                   # leaves behind is compared across processes, not judged here
     if not check_others(pre, post, names, nm, sh, case, what):
         return False
+    if step["op"] == "write_exec_d" and any(not os.path.exists(os.path.join(src_dir, s_)) for _, s_ in step["programs"] if not s_.startswith("@layer/")):
+        # one of the sources does not exist: the call fails. What it leaves in exec.d is not specified - nothing else in the layer is touched,
+        # and nothing new appears (the next successful call installs exactly its own programs: judged there)
+        if "err" not in rep:
+            sh.violation("write:execd:missing-source-accepted", "%s succeeded although a source file does not exist" % what, case)
+            return False
+        rest0 = {k: e for k, e in v0["dir"].items() if not (k == b"exec.d" or k.startswith(b"exec.d/"))}
+        rest1 = {k: e for k, e in v1["dir"].items() if not (k == b"exec.d" or k.startswith(b"exec.d/"))}
+        if rest0 != rest1 or v0["toml"] != v1["toml"] or v0["sboms"] != v1["sboms"]:
+            sh.violation("write:execd:failed-call-collateral", "%s failed (a source file is missing) and left something behind outside exec.d: %s" % (what, vp.snap_diff(rest0, rest1)), case)
+            return False
+        return True
     if "err" in rep:
         sh.violation("write:error", "%s failed: %s" % (what, rep["detail"][:300]), case)
         return False
@@ -386,7 +398,7 @@ def unjson(steps):
     return out
 
 
-def run_history(mon, base, hid, steps, names, sh, snapshots_out=None):
+def run_history(mon, base, hid, steps, names, sh, snapshots_out=None, src_mtime=None):
     root = os.path.join(base, "h%s" % hid)
     layers = os.path.join(root, "layers")
     src = os.path.join(root, "src")
@@ -407,6 +419,10 @@ def run_history(mon, base, hid, steps, names, sh, snapshots_out=None):
         f.write(b"#!/bin/sh\necho pB\n")
     os.chmod(os.path.join(src, "p1b"), 0o755)
     os.symlink("p2", os.path.join(src, "p2l"))      # a source that is a symbolic link: what is installed is the program, not the link
+    if src_mtime is not None:
+        # (the age of the source files relative to what is installed from them is no input: C20 runs its processes with old, current and future sources)
+        for p in ("p1", "p2", "p3", "p1b"):
+            os.utime(os.path.join(src, p), (src_mtime, src_mtime))
     case = {"steps": jsonable(steps), "names": names, "_layers": layers, "umask": getattr(mon, "umask", 0o022)}
     try:
         mon.call({"op": "init", "layers_dir": layers, "app_dir": os.path.join(root, "app"), "bp_dir": os.path.join(root, "bp")})
